@@ -262,6 +262,9 @@ func collect(f *flags, overlay map[string][]byte) (*propWork, error) {
 	}
 	for _, k := range keys {
 		fn := ld.funcs[k]
+		if fn == nil && db.Funcs[k].Pure && ld.isInterfaceMethodKey(k) {
+			continue // contract of an interface method (used at invoke sites, nothing to verify)
+		}
 		if fn == nil {
 			w.engineErrs = append(w.engineErrs, fmt.Sprintf("contract names a function that does not exist: %s", k))
 			continue
